@@ -39,3 +39,20 @@ Example shutdown_waits :
   let c2 := run ex_params2 (init ex_params2) ex_sched3 in
   shpc c1 = ShWait /\ shcount c1 = 0 /\ shpc c2 = ShDone /\ shcount c2 = 1 /\ compl c2 0 = [CErr 0].
 Proof. vm_compute. auto. Qed.
+
+(* the known finding "self-pipelining deadlock" on the model: MaxConcurrentCalls = 1, call 0 is
+   acknowledged, call 1 is queued on its answer, call 0 returns ok and its goroutine is inside the
+   drain loop (IDrain) holding the only slot. If the result capability is the server itself, the
+   delivery of call 1 is a nested Server.start executed BY THAT GOROUTINE; in the model this nested
+   start is the start thread of call 2: it takes the gate, finds no free slot and waits on full
+   (SWaitFull); its next step is not enabled, and the only thread that could free a slot is
+   TImpl 0 - the goroutine that, in the implementation, is the one blocked in the nested start. *)
+Definition ex_params_self : params :=
+  mkParams 1 1 (fun x => match x with 1 => Pipe 0 | _ => Direct end) (fun _ => None) true.
+Definition ex_sched_self : list tid :=
+  [TStart 0; TAck 0; TStart 0; TPipe 1; TRet 0 false; TImpl 0; TStart 2].
+Example self_pipe_blocked :
+  let c := run ex_params_self (init ex_params_self) ex_sched_self in
+  ipc c 0 = IDrain /\ ongoing c = [Some 0] /\ spc c 2 = SWaitFull /\ full c = Some 2 /\
+  step ex_params_self c (TStart 2) = None /\ step ex_params_self c (TStartCtx 2) = None.
+Proof. vm_compute. repeat split. Qed.
